@@ -3,7 +3,7 @@ CONSTANTS
   Mode = "errors"
   ProtoSets <- SingleProtoSets
   CodecSeqs <- QCodecSeqs
-  CompSeqs <- NoCompSeqs
+  CompSeqs <- GzCompSeqs
   ClientForms <- QForms
   ClientCodecs <- QCodecs
   ClientComps <- NoComps
